@@ -14,9 +14,15 @@ use serde_json::{json, Value};
 const SEG: usize = 1400;
 /// segment sizes of the chains: full-size, small, single byte
 pub const SIZES: [usize; 3] = [1400, 64, 1];
-/// generous fixed limits: the verdict is about growth with the segment index, not about the absolute footprint
+/// The verdict is about growth with the segment index, not about the footprint an implementation chooses:
+///  * below the soft limits nothing is demanded;
+///  * above them the second half of the chain must not exceed the first half (retained: + 64 KiB; per packet: x 1.25 + 64 KiB),
+///    i.e. whatever cap the implementation uses must have been reached and must hold;
+///  * the hard limits end a chain at once.
 pub const RETAINED_LIMIT: isize = 256 * 1024;
 pub const PER_PACKET_LIMIT: usize = 1024 * 1024 + 64 * SEG;
+pub const RETAINED_HARD: isize = 8 * 1024 * 1024;
+pub const PER_PACKET_HARD: usize = 16 * 1024 * 1024;
 
 pub const KINDS: [&str; 13] = [
     "http-head-never-ends",
@@ -194,7 +200,9 @@ pub fn run_chain(r: &mut Report, analyzer: &str, kind: &str, from_client: bool, 
         feed(&synack);
         let base_live = counters().0;
         let mut worst: (isize, usize, usize) = (0, 0, 0);
-        let mut viol: Option<(usize, isize, usize)> = None;
+        // (max retained, max allocated per packet) over the first and the second half of the chain
+        let mut halves = [(0isize, 0usize); 2];
+        let mut viol: Option<(usize, isize, usize, &'static str)> = None;
         for i in 0..n {
             let f = chain_frame(kind, from_client, i, size);
             let before = counters();
@@ -210,23 +218,37 @@ pub fn run_chain(r: &mut Report, analyzer: &str, kind: &str, from_client: bool, 
                 worst.1 = allocated;
                 worst.2 = i;
             }
-            if retained > RETAINED_LIMIT || allocated > PER_PACKET_LIMIT {
-                viol = Some((i, retained, allocated));
+            let h = &mut halves[if i < n / 2 { 0 } else { 1 }];
+            h.0 = h.0.max(retained);
+            h.1 = h.1.max(allocated);
+            if retained > RETAINED_HARD {
+                viol = Some((i, retained, allocated, "retained-memory-grows-with-the-segment-count"));
+                break;
+            }
+            if allocated > PER_PACKET_HARD {
+                viol = Some((i, retained, allocated, "work-per-packet-grows-with-the-segment-count"));
                 break;
             }
         }
-        (worst, viol)
+        if viol.is_none() && n >= 4 {
+            let (a, b) = (halves[0], halves[1]);
+            if b.0 > RETAINED_LIMIT && b.0 > a.0 + 64 * 1024 {
+                viol = Some((n - 1, b.0, b.1, "retained-memory-grows-with-the-segment-count"));
+            } else if b.1 > PER_PACKET_LIMIT && b.1 > a.1 + a.1 / 4 + 64 * 1024 {
+                viol = Some((n - 1, b.0, b.1, "work-per-packet-grows-with-the-segment-count"));
+            }
+        }
+        (worst, viol, halves)
     });
     r.exec(n as u64);
     let dir = if from_client { "client" } else { "server" };
     match res {
         Err(p) => r.dev(format!("C11/{analyzer}/panic"), "panic", || json!({"analyzer": analyzer, "kind": kind, "direction": dir, "segment_bytes": size, "segments": n, "detail": p})),
-        Ok((worst, viol)) => {
+        Ok((worst, viol, halves)) => {
             r.outcome(&(analyzer, kind, dir, size, worst.0 / 4096, worst.1 / 4096));
             r.sample(|| json!({"analyzer": analyzer, "kind": kind, "direction": dir, "segments": n, "segment_bytes": size, "max_retained_bytes": worst.0, "max_allocated_per_packet": worst.1, "at_segment": worst.2}));
-            if let Some((i, retained, allocated)) = viol {
-                let class = if retained > RETAINED_LIMIT { "retained-memory-grows-with-the-segment-count" } else { "work-per-packet-grows-with-the-segment-count" };
-                r.dev(format!("C11/{analyzer}/{kind}/{dir}/{size}-byte-segments/{class}"), class, || json!({"analyzer": analyzer, "kind": kind, "direction": dir, "segments": n, "segment_bytes": size, "first_violation_at_segment": i, "retained_bytes": retained, "allocated_for_that_packet": allocated, "limits": {"retained": RETAINED_LIMIT, "per_packet": PER_PACKET_LIMIT}}));
+            if let Some((i, retained, allocated, class)) = viol {
+                r.dev(format!("C11/{analyzer}/{kind}/{dir}/{size}-byte-segments/{class}"), class, || json!({"analyzer": analyzer, "kind": kind, "direction": dir, "segments": n, "segment_bytes": size, "seen_at_segment": i, "retained_bytes": retained, "allocated_per_packet": allocated, "first_half_max": {"retained": halves[0].0, "per_packet": halves[0].1}, "second_half_max": {"retained": halves[1].0, "per_packet": halves[1].1}, "limits": {"soft_retained": RETAINED_LIMIT, "soft_per_packet": PER_PACKET_LIMIT, "hard_retained": RETAINED_HARD, "hard_per_packet": PER_PACKET_HARD}}));
             }
         }
     }
@@ -260,6 +282,7 @@ pub fn run_capacity(r: &mut Report, analyzer: &str, capacity: usize, extra: usiz
                 })
             }
         };
+        let mut at_capacity = 0isize;
         let mut worst = 0isize;
         for c in 0..(capacity + extra) {
             let (hi, lo) = ((c >> 8) as u8, c as u8);
@@ -273,19 +296,22 @@ pub fn run_capacity(r: &mut Report, analyzer: &str, capacity: usize, extra: usiz
             feed(&mk(ACK | PSH, 1001, payload("tls-record-declaring-65535-bytes", 0), vec![]));
             feed(&mk(ACK | PSH, 1001, payload("http-head-never-ends", 0), vec![]));
             worst = worst.max(counters().0 - base);
+            if c + 1 == capacity {
+                at_capacity = worst;
+            }
         }
-        worst
+        (at_capacity, worst)
     });
     r.exec((capacity + extra) as u64 * 3);
     match res {
         Err(p) => r.dev(format!("C11/{analyzer}/panic"), "panic", || json!({"analyzer": analyzer, "capacity": capacity, "detail": p})),
-        Ok(worst) => {
+        Ok((at_capacity, worst)) => {
             r.outcome(&(analyzer, capacity, worst / 65536));
-            r.sample(|| json!({"analyzer": analyzer, "capacity": capacity, "connections": capacity + extra, "max_retained_bytes": worst}));
-            // fixed analyzer overhead (caches are pre-sized) + capacity x per-connection limit
-            let limit = 4 * 1024 * 1024 + capacity as isize * RETAINED_LIMIT;
+            r.sample(|| json!({"analyzer": analyzer, "capacity": capacity, "connections": capacity + extra, "retained_with_capacity_connections": at_capacity, "max_retained_bytes": worst}));
+            // connections beyond the capacity must replace earlier ones, not add to them
+            let limit = at_capacity + at_capacity / 4 + 256 * 1024;
             if worst > limit {
-                r.dev(format!("C11/{analyzer}/capacity-not-respected"), "capacity", || json!({"analyzer": analyzer, "capacity": capacity, "connections": capacity + extra, "retained_bytes": worst, "limit": limit}));
+                r.dev(format!("C11/{analyzer}/capacity-not-respected"), "capacity", || json!({"analyzer": analyzer, "capacity": capacity, "connections": capacity + extra, "retained_with_capacity_connections": at_capacity, "retained_bytes": worst, "limit": limit}));
             }
         }
     }
@@ -312,13 +338,13 @@ pub fn run(thorough: bool) -> Outcome {
     });
     let mut total = rep;
     for an in ["tcp", "http", "tls"] {
-        for (cap, extra) in [(1usize, 50usize), (8, 100), (1000, if thorough { 3000 } else { 500 })] {
+        for (cap, extra) in [(1usize, 50usize), (8, 100), (64, 256), (1000, if thorough { 3000 } else { 1000 })] {
             run_capacity(&mut total, an, cap, extra);
         }
     }
     Outcome {
         report: total,
-        rule: "deterministic chains: SYN, SYN+ACK, then N segments (1400, 64 or 1 byte each, same byte stream) of 13 never-fingerprinting traffic kinds (incl. many complete small records / frames / lines per segment) x both directions x 4 analyzers; after EVERY packet: bytes retained since the connection started <= 256 KiB and bytes allocated while handling the packet <= 1 MiB + 64 x segment size (counting allocator, per thread); capacity families: capacity + k connections for capacities 1, 8, 1000; distinct = distinct (chain, peak) outcomes".into(),
+        rule: "deterministic chains: SYN, SYN+ACK, then N segments (1400, 64 or 1 byte each, same byte stream) of 13 never-fingerprinting traffic kinds (incl. many complete small records / frames / lines per segment) x both directions x 4 analyzers; after EVERY packet the bytes retained since the connection started and the bytes allocated while handling the packet are recorded (counting allocator, per thread): hard limits 8 MiB / 16 MiB at every step; above the soft limits (256 KiB retained, 1 MiB + 64 x segment size per packet) the second half of the chain must not exceed the first (retained + 64 KiB, per packet x 1.25 + 64 KiB); capacity families: capacity + k connections (k >= capacity) for capacities 1, 8, 64, 1000 must not retain more than 1.25 x what `capacity` connections retain + 256 KiB; distinct = distinct (chain, peak) outcomes".into(),
         exhaustive: true,
         bounds: json!({"segments_per_chain": n, "segment_bytes": SIZES, "chains": jobs.len(), "retained_limit": RETAINED_LIMIT, "per_packet_limit": PER_PACKET_LIMIT}),
     }
